@@ -184,4 +184,59 @@ theorem held {P : Prog} {c c' : Cfg} (ht : Trans P c c') {q : Nat} (hq : q ≠ c
   · exact h.map _
   · exact absurd h hq
 
+/-! ### several transitions -/
+
+theorem eff_tr {c c' : Cfg} (h : Eff c c') : ∃ new, c'.tr = new ++ c.tr := by
+  rcases h with hp | ht | ⟨e, es, _, h2⟩
+  · obtain ⟨f⟩ := hp.facts
+    exact ⟨_, f.tr⟩
+  · obtain ⟨vm, h1, hp, e, es, he, h2⟩ := ht.plainPart
+    obtain ⟨f⟩ := hp.facts
+    refine ⟨Tr.take vm.active e.2.2 :: (f.new2 ++ f.new1), ?_⟩
+    have : c'.view.tr = _ := congrArg QView.tr h2
+    rw [view_tr] at this
+    rw [this]; show _ :: vm.tr = _; rw [f.tr]; rfl
+  · refine ⟨[Tr.procEnd, Tr.putBack c.L.active e.2.2], ?_⟩
+    have : c'.view.tr = _ := congrArg QView.tr h2
+    rw [view_tr] at this
+    rw [this]; rfl
+
+theorem reach_tr {P : Prog} {c c' : Cfg} (h : Reach P c c') : ∃ new, c'.tr = new ++ c.tr := by
+  induction h with
+  | init => exact ⟨[], rfl⟩
+  | step _ hs ih =>
+    obtain ⟨n1, h1⟩ := ih
+    obtain ⟨n2, h2⟩ := eff_tr (trans_eff (.step hs))
+    exact ⟨n2 ++ n1, by rw [h2, h1, List.append_assoc]⟩
+  | deliver _ hd ih =>
+    obtain ⟨n1, h1⟩ := ih
+    obtain ⟨n2, h2⟩ := eff_tr (trans_eff (P := P) (.deliver hd))
+    exact ⟨n2 ++ n1, by rw [h2, h1, List.append_assoc]⟩
+  | halt _ hs ih =>
+    obtain ⟨n1, h1⟩ := ih
+    obtain ⟨n2, h2⟩ := eff_tr (trans_eff (.halt hs))
+    exact ⟨n2 ++ n1, by rw [h2, h1, List.append_assoc]⟩
+
+theorem held_trans_step {P : Prog} {c cm c' : Cfg} (hr : Reach P c cm) (ht : Trans P cm c') {q : Nat}
+    (ih : (∀ s, Tr.take q s ∉ newTr c cm) → (c.queue q).sigs.Sublist (cm.queue q).sigs)
+    (hno : ∀ s, Tr.take q s ∉ newTr c c') : (c.queue q).sigs.Sublist (c'.queue q).sigs := by
+  obtain ⟨n1, h1⟩ := reach_tr hr
+  obtain ⟨n2, h2⟩ := eff_tr (trans_eff ht)
+  have h3 : c'.tr = (n2 ++ n1) ++ c.tr := by rw [h2, h1, List.append_assoc]
+  rw [newTr_of_append h3] at hno
+  have ih' := ih (by rw [newTr_of_append h1]; exact fun s hm => hno s (List.mem_append_right _ hm))
+  refine ih'.trans ?_
+  rcases eff_entries (trans_eff ht) q with h | ⟨⟨s, hs⟩, _, _⟩
+  · exact h.map _
+  · rw [newTr_of_append h2] at hs
+    exact absurd (List.mem_append_left _ hs) (hno s)
+
+theorem held_multi {P : Prog} {c c' : Cfg} (h : Reach P c c') {q : Nat}
+    (hno : ∀ s, Tr.take q s ∉ newTr c c') : (c.queue q).sigs.Sublist (c'.queue q).sigs := by
+  induction h with
+  | init => exact List.Sublist.refl _
+  | step hr hs ih => exact held_trans_step hr (.step hs) ih hno
+  | deliver hr hd ih => exact held_trans_step hr (.deliver hd) ih hno
+  | halt hr hs ih => exact held_trans_step hr (.halt hs) ih hno
+
 end Simpleline
